@@ -267,6 +267,77 @@ fn term_monadic(t: &T) -> bool {
     }
 }
 
+// ---------------------------------------------------------------- structure around joins (un.rs JoinPat)
+
+fn flat<'a>(t: &'a T, out: &mut Vec<&'a T>) {
+    match t {
+        T::Seq(v) => v.iter().for_each(|x| flat(x, out)),
+        x => out.push(x),
+    }
+}
+/// outputs minus arguments
+fn net(t: &T) -> i64 {
+    match t {
+        T::B(i) => BLOCKS[*i].outs as i64 - BLOCKS[*i].args as i64,
+        T::On(_) | T::By(_) => 0,
+        T::Seq(v) => v.iter().map(net).sum(),
+        T::Dip(f) | T::Rows(f) | T::Fill(f) => net(f),
+        T::Both(f) => 2 * net(f),
+        T::Bracket(f, g) => net(f) + net(g),
+    }
+}
+fn is_join(t: &T) -> bool {
+    matches!(t, T::B(i) if BLOCKS[*i].name == "join")
+}
+fn contains_join(t: &T) -> bool {
+    let mut v = Vec::new();
+    flat(t, &mut v);
+    v.iter().any(|x| is_join(x) || matches!(x, T::Dip(f) if contains_join(f)))
+}
+fn pure_chain(t: &T) -> bool {
+    let mut v = Vec::new();
+    flat(t, &mut v);
+    v.iter().all(|x| is_join(x) || matches!(x, T::Dip(f) if pure_chain(f)))
+}
+/// how JoinPat treats the term: "nonchain" (a dipped function that contains a join without being a
+/// chain, or whose inverse is unbalanced: still flattened) / "segment-order" name the open findings' classes,
+/// "chain" = a chain of joins (the engine returns the middle parts as one-row lists: inputs with
+/// scalar middle parts are outside the calibrated domain; chains are covered by the directed family)
+pub fn join_class(t: &T) -> Option<&'static str> {
+    let mut v = Vec::new();
+    flat(t, &mut v);
+    let mut found: Option<&'static str> = None;
+    if let Some(j) = v.iter().rposition(|x| is_join(x)) {
+        let prefix = &v[..j];
+        for (i, x) in prefix.iter().enumerate() {
+            if let T::Dip(f) = x {
+                if contains_join(f) || net(f) != 0 {
+                    found = Some(if pure_chain(f) { found.unwrap_or("chain") } else { "nonchain" });
+                    if found == Some("nonchain") {
+                        return found;
+                    }
+                } else if prefix[..i].iter().any(|y| !matches!(y, T::Dip(_))) && prefix[i + 1..].iter().any(|y| !matches!(y, T::Dip(_))) && found.is_none() {
+                    found = Some("segment-order");
+                }
+            }
+        }
+    }
+    if found.is_some() {
+        return found;
+    }
+    for x in v {
+        let sub = match x {
+            T::Dip(f) | T::Both(f) | T::Rows(f) | T::Fill(f) => join_class(f),
+            T::Bracket(f, g) => join_class(f).or_else(|| join_class(g)),
+            _ => None,
+        };
+        if sub.is_some() {
+            return sub;
+        }
+    }
+    None
+}
+
 // ---------------------------------------------------------------- template exporter (Model/Invert.v `tn`)
 
 const PNAMES: &[&str] = &[
@@ -582,6 +653,7 @@ struct Stats {
     right_random_checked: usize,
     unun_checked: usize,
     anti_checked: usize,
+    chain_terms_skipped: usize,
     unun_node_agree: usize,
     unun_node_differ: usize,
     anti_both_fail: usize,
@@ -617,7 +689,15 @@ fn search_term(t: &T, seed: u64, per: usize, st: &mut Stats) {
     let Some(src) = t.src(0) else { return };
     let gsrc = t.src(1).unwrap_or_default();
     let isrc = t.src(2);
-    let name = t.name();
+    let jc = join_class(t);
+    if jc == Some("chain") {
+        st.chain_terms_skipped += 1;
+        return;
+    }
+    let name = match jc {
+        Some(c) => format!("{}#join:{c}", t.name()),
+        None => t.name(),
+    };
     let depth = t.depth();
     let res = fresh_thread(move || {
         let mut st = Stats::default();
@@ -642,7 +722,7 @@ fn search_term(t: &T, seed: u64, per: usize, st: &mut Stats) {
         let (a, o) = (ti.sig.args(), ti.sig.outputs());
         st.by_depth[depth.min(5)] += 1;
         // fixed corpus: the reproducing inputs of the known findings are exercised on every run
-        let mut fixed: Vec<Vec<Value>> = match name.as_str() {
+        let mut fixed: Vec<Vec<Value>> = match name.split('#').next().unwrap_or("") {
             "seq[dip(neg),join]" => vec![vec![num(&[1], &[4.0]), Value::from(3.0)]],
             "seq[neg,sub2]" => vec![vec![chars(&[2], &[' ', '0'])]],
             "seq[sub2,mul2]" => vec![vec![Value::from(7.0)]],
@@ -759,6 +839,77 @@ fn search_term(t: &T, seed: u64, per: usize, st: &mut Stats) {
     for i in 0..4 {
         st.by_rank[i] += res.by_rank[i];
     }
+}
+
+/// Directed families around un-join (JoinPat): functions written literally with the inputs given as
+/// uiua source (pushed by running it).  The engine's chain inverse returns the middle parts of a
+/// chain of joins as one-row lists, so the inputs use that convention and bypass the block guards.
+/// class: "regression" = repaired or intended behaviour that must hold; the others name open findings.
+const DIRECTED: &[(&str, &str, &str)] = &[
+    ("regression:join-dip", "⊂⊙¯", "3 [¯4]"),
+    ("regression:join-dip", "⊂⊙(-2)", "3 [1]"),
+    ("regression:join-dip", "⊂⊙⇌", "1 [2 3]"),
+    ("regression:join-dip", "⊂¯⊙¯", "3 [4]"),
+    ("regression:join-dip", "⊂⊙(+1¯)", "3 [4 5]"),
+    ("regression:join-chain", "⊂⊙⊂", "1 [2] [3 4]"),
+    ("regression:join-chain", "⊂⊙(⊂⊙¯)", "1 [2] [3 4]"),
+    ("regression:join-chain", "⊂⊙⊂⊙⊙¯", "1 [2] [3 4]"),
+    ("regression:join-prefix", "⊂+1¯", "3 [4]"),
+    ("regression:join-prefix", "⊂¬⊙¯+1", "3 [4]"),
+    ("nonchain", "⊂⊙(¯⊂)", "1 [2] [3 4]"),
+    ("nonchain", "⊂⊙(⊂¯)", "1 [2] [3 4]"),
+    ("nonchain", "⊂⊙(⇌⊂)", "1 [2] [3 4]"),
+    ("nonchain", "⊂⊙(⊂⊙⊂)", "1 [2] [3] [4 5]"),
+    ("nonchain", "⊂⊙⊟", "[1 2] [3 4] [5 6]"),
+    ("segment-order", "⊂+1⊙¯¯", "3 [4]"),
+    ("segment-order", "⊂-2⊙⇌¯", "3 [4 5]"),
+];
+
+fn search_directed(st: &mut Stats) -> usize {
+    let mut n = 0;
+    for (class, fsrc, xsrc) in DIRECTED {
+        let (class, fsrc, xsrc) = (class.to_string(), fsrc.to_string(), xsrc.to_string());
+        let res = fresh_thread(move || {
+            let mut st = Stats::default();
+            let name = format!("directed:{class}:{fsrc}");
+            let Ok(x) = run_uiua(&xsrc) else { return st };
+            st.evals += 1;
+            let y = match run_uiua_with(&format!("({fsrc})"), &x) {
+                Ok(y) => y,
+                Err(e) => {
+                    viol("directed-setup", &name, &fsrc, &x, &format!("F fails on the directed input: {e}"));
+                    return st;
+                }
+            };
+            st.in_dom += 1;
+            let usrc = format!("°({fsrc})");
+            match run_uiua_with(&usrc, &y) {
+                Ok(x2) => {
+                    st.left_checked += 1;
+                    if !same(&x2, &x) {
+                        viol("left", &name, &usrc, &x, &format!("°F F x = {} but x = {}", show(&x2), show(&x)));
+                    }
+                    match run_uiua_with(&format!("({fsrc})"), &x2) {
+                        Ok(y2) => {
+                            st.right_checked += 1;
+                            if !same(&y2, &y) {
+                                viol("right", &name, &fsrc, &x, &format!("F °F y = {} but y = {}", show(&y2), show(&y)));
+                            }
+                        }
+                        Err(e) => viol("right", &name, &fsrc, &x, &format!("F fails on °F y = {}: {e}", show(&x2))),
+                    }
+                }
+                Err(e) => viol("left", &name, &usrc, &x, &format!("°F fails on F x = {}: {e}", show(&y))),
+            }
+            st
+        });
+        st.evals += res.evals;
+        st.in_dom += res.in_dom;
+        st.left_checked += res.left_checked;
+        st.right_checked += res.right_checked;
+        n += 1;
+    }
+    n
 }
 
 /// ⌝F a b = °(F a) b for the dyadic blocks (both sides may fail, but then both must)
@@ -888,10 +1039,12 @@ fn main() {
                 search_term(t, seed, per_t, &mut st);
             }
             search_anti(r.next(), (n / 40).max(20), &mut st);
+            let directed = search_directed(&mut st);
+            println!("{{\"directed\":true,\"programs\":{directed}}}");
             println!(
-                "{{\"summary\":true,\"terms\":{},\"evaluations\":{},\"in_domain\":{},\"outside_domain_skipped\":{},\"left_checked\":{},\"right_checked\":{},\"right_range_checked\":{},\"unun_checked\":{},\"unun_node_agree\":{},\"unun_node_differ\":{},\"anti_checked\":{},\"anti_both_fail\":{},\"no_inverse\":{},\"compile_fail\":{},\"terms_by_depth\":{:?},\"values_by_kind_num_byte_char_complex_box\":{:?},\"values_by_rank\":{:?}}}",
+                "{{\"summary\":true,\"terms\":{},\"evaluations\":{},\"in_domain\":{},\"outside_domain_skipped\":{},\"left_checked\":{},\"right_checked\":{},\"right_range_checked\":{},\"unun_checked\":{},\"unun_node_agree\":{},\"unun_node_differ\":{},\"anti_checked\":{},\"anti_both_fail\":{},\"join_chain_terms_skipped\":{},\"no_inverse\":{},\"compile_fail\":{},\"terms_by_depth\":{:?},\"values_by_kind_num_byte_char_complex_box\":{:?},\"values_by_rank\":{:?}}}",
                 terms.len(), st.evals, st.in_dom, st.out_dom, st.left_checked, st.right_checked, st.right_random_checked, st.unun_checked,
-                st.unun_node_agree, st.unun_node_differ, st.anti_checked, st.anti_both_fail, st.no_inverse, st.compile_fail, st.by_depth, st.by_kind, st.by_rank
+                st.unun_node_agree, st.unun_node_differ, st.anti_checked, st.anti_both_fail, st.chain_terms_skipped, st.no_inverse, st.compile_fail, st.by_depth, st.by_kind, st.by_rank
             );
         }
         _ => eprintln!("usage: c03 dump|export N|search N"),
